@@ -198,7 +198,9 @@ func (c *Collection) _stopFeeds() {
 	for _, feed := range c.bucket.collectionFeeds[c.DataStoreNameImpl] {
 		feed.close()
 	}
-	c.bucket.collectionFeeds = nil
+	// Forget only this collection's feeds. The map is shared by all handles of the bucket and also
+	// holds the feeds of the other collections, which must keep running.
+	delete(c.bucket.collectionFeeds, c.DataStoreNameImpl)
 }
 
 //////// DCPFEED:
